@@ -36,6 +36,8 @@ FIXES = [
     ("C12", "fix: an early return (X) from a lambda or function", "λX;† left entries on ctx.stacks and ctx.function_stack; @f|1X2;@f; left ctx.stacks entry"),
     ("C12", "fix: printing a lazy list unregisters", "3ɾ, : LazyList.output appended to ctx.stacks and never popped (every printed lazy list leaked one entry)"),
     ("C01", "fix: continue (x) in a while loop re-evaluates", "x in a while loop jumped back to the test of the stale condition value: the condition code never ran again (2→c{←c|←c‹→c x} did not terminate)"),
+    ("C01", "fix: & (apply to register) passes the operand", "& with a dyad handed both arguments to the operand as one list: 3£ 4&+ ¥ gave [6, 8] instead of 7; &! received a spurious empty list"),
+    ("C01", "fix: break and recurse inside map/filter/sort lambdas", "X inside ƛ ' µ was a no-op (2ƛX!; gave [1, 1] instead of [1, 2]) and x printed the stack, because their bodies were parsed with LambdaMap/Filter/Sort as parent"),
     ("C02", "fix: the template of ¨…", "the template of ¨… had a positional argument after a keyword argument: every program containing ¨… failed to compile"),
 ]
 
